@@ -343,6 +343,7 @@ func (e *teEnv) boundaryTrace() string {
 type teQuery struct {
 	WideIDs  []string `json:"wide_ids,omitempty"` // explicit trace ids
 	Boundary bool     `json:"boundary,omitempty"` // ask for the boundary trace of the history (resolved at run time)
+	AllWide  bool     `json:"all_wide,omitempty"` // ask for every trace of the wide batches by id (resolved at run time)
 	Traces   []int    `json:"traces,omitempty"`   // by trace id (eq / in)
 	Svc      int      `json:"svc"`                // ordered query: entity service_id = svc-N
 	Order    string   `json:"order,omitempty"`    // "" (by trace id) | duration
@@ -492,6 +493,7 @@ type teStats struct {
 	byID, ordered      int
 	multiPart, vecUsed bool
 	boundary           bool
+	allWide            bool
 	cut                bool
 }
 
@@ -527,6 +529,21 @@ func runTraceEngine(x *verifkit.Ctx, c teCase) (teStats, error) {
 			for k := 0; k < c.Ops[i].WideN; k++ {
 				op.Spans = append(op.Spans, teSpan{Wide: fmt.Sprintf("w-%05d", k), ID: 5000000 + k, Svc: 0, Dur: 1, T: int64(k % 100)})
 			}
+		}
+		if op.Query != nil && op.Query.AllWide {
+			q := *op.Query
+			for id := range written {
+				if strings.HasPrefix(id, "w-") {
+					q.WideIDs = append(q.WideIDs, id)
+				}
+			}
+			if len(q.WideIDs) == 0 {
+				continue
+			}
+			sort.Strings(q.WideIDs)
+			q.Limit = len(q.WideIDs)
+			op.Query = &q
+			st.allWide = true
 		}
 		if op.Query != nil && op.Query.Boundary {
 			if boundary == "" {
@@ -708,8 +725,11 @@ func genTeCase(t *rapid.T, _ *verifkit.KnownSet) teCase {
 	if rapid.IntRange(0, 14).Draw(t, "boundary") == 0 {
 		// everything flushed so far and the wide batch are merged into one part first, so that the granule
 		// boundary read from it is the one the final merge reproduces
-		c.Ops = append(c.Ops, teOp{Kind: "wide", WideN: rapid.IntRange(5500, 7000).Draw(t, "widen")}, teOp{Kind: "flush"},
-			teOp{Kind: "merge", Pick: []int{0, 1, 2, 3, 4, 5, 6, 7}},
+		// every trace of the wide batch is looked up by id while the batch is a memory part, after the flush and after the merge
+		// (a part with several primary-index granules: every granule boundary is crossed)
+		allWide := teOp{Kind: "query", Query: &teQuery{AllWide: true}}
+		c.Ops = append(c.Ops, teOp{Kind: "wide", WideN: rapid.IntRange(5500, 7000).Draw(t, "widen")}, allWide, teOp{Kind: "flush"}, allWide,
+			teOp{Kind: "merge", Pick: []int{0, 1, 2, 3, 4, 5, 6, 7}}, allWide,
 			teOp{Kind: "boundarybig", BigKiB: rapid.IntRange(1050, 1200).Draw(t, "bigkib")}, teOp{Kind: "flush"},
 			teOp{Kind: "merge", Pick: []int{0, 1, 2, 3, 4, 5, 6, 7}},
 			teOp{Kind: "query", Query: &teQuery{Boundary: true, Limit: 5, Vec: rapid.Bool().Draw(t, "bvec")}})
@@ -753,6 +773,7 @@ const teRule = "1..5 write batches of 1..15 spans (8 traces, 3 services, unique 
 	"ordered by the index rule for one service (asc/desc, limit/offset), through the row pipeline or the engine's columnar pipeline"
 
 func teLabels(x *verifkit.Ctx, st teStats) {
+	x.LabelIf(st.allWide, "every trace of a part with several primary-index granules looked up")
 	x.LabelIf(st.flushes > 0, "flush")
 	x.LabelIf(st.merges > 0, "merge")
 	x.LabelIf(st.byID > 0, "query by trace id")
